@@ -364,7 +364,10 @@ def check_program(chk, prover, mod, prog, src, stats, data=None, prop='C01'):
         while True:
             r = s.check()
             if r == z3.unknown:
-                chk.inconclusive_note(prog['entry'] + ': no verdict on a path condition'); break
+                # the solver did not decide a path condition within its time limit: the program is counted as undecided
+                stats['undecided_solver_timeout'] = stats.get('undecided_solver_timeout', 0) + 1
+                stats.setdefault('undecided_programs', []).append(prog['entry'])
+                return None
             if r != z3.sat:
                 break
             m = s.model()
